@@ -124,7 +124,14 @@ class Variable(FortranObj):
                     search_scope = search_scope.parent
                 if search_scope is not None:
                     type_name = type_name.strip().lower()
-                    type_obj = find_in_scope(search_scope, type_name, obj_tree)
+                    # TYPE(name) and CLASS(name) name a derived type, which may
+                    # share its name with a generic interface
+                    obj_type = None
+                    if self.desc.upper().startswith(("TYPE", "CLASS")):
+                        obj_type = CLASS_TYPE_ID
+                    type_obj = find_in_scope(
+                        search_scope, type_name, obj_tree, obj_type=obj_type
+                    )
                     if type_obj is not None:
                         self.type_obj = type_obj
         return self.type_obj
